@@ -11,17 +11,18 @@ import Penguin.Lemmas.PairAllAbs
 namespace Penguin.PairAll
 open Penguin.Mux
 
-/-- The kind of a slot: 0 none, 1 a pending request (stream or bind), 2 established. -/
+/-- The kind of a slot: 0 none, 1 a pending stream request, 3 a pending bind request, 2 established. -/
 def sk : Option Slot → Nat
   | none => 0
   | some (.requested _) => 1
-  | some (.bindRequested _) => 1
+  | some (.bindRequested _) => 3
   | some (.established _) => 2
 
 def isAP (x : Nat) (m : Msg) : Bool := isAck x m || isPush x m
 
 def cC (x : Nat) (l : List Msg) : Nat := l.countP (isConn x)
 def cAP (x : Nat) (l : List Msg) : Nat := l.countP (isAP x)
+def cB (x : Nat) (l : List Msg) : Nat := l.countP (isBind x)
 
 structure Sm where
   ca : Nat
@@ -34,28 +35,50 @@ structure Sm where
   aP : Nat
   cQ : Nat
   aQ : Nat
+  wa : Nat      -- writable objects
+  wb : Nat
+  bP : Nat      -- `Bind x` frames on the path from the left
+  bQ : Nat
+  ha : Nat      -- 1 if the left side holds a bind request with id `x` (of the right side)
+  hb : Nat
 
 def Sm.swap (s : Sm) : Sm :=
-  { ca := s.cb, cb := s.ca, na := s.nb, nb := s.na, sa := s.sb, sb := s.sa, cP := s.cQ, aP := s.aQ, cQ := s.cP, aQ := s.aP }
+  { ca := s.cb, cb := s.ca, na := s.nb, nb := s.na, sa := s.sb, sb := s.sa, cP := s.cQ, aP := s.aQ, cQ := s.cP, aQ := s.aP,
+    wa := s.wb, wb := s.wa, bP := s.bQ, bQ := s.bP, ha := s.hb, hb := s.ha }
+
+def b2n (b : Bool) : Nat := if b then 1 else 0
 
 def sm (x : Nat) (c : PC) : Sm :=
   { ca := c.a.cnt, cb := c.b.cnt, na := c.a.nobj, nb := c.b.nobj, sa := sk c.a.slot, sb := sk c.b.slot,
-    cP := cC x c.path, aP := cAP x c.path, cQ := cC x c.swap.path, aQ := cAP x c.swap.path }
+    cP := cC x c.path, aP := cAP x c.path, cQ := cC x c.swap.path, aQ := cAP x c.swap.path,
+    wa := c.a.nw, wb := c.b.nw, bP := cB x c.path, bQ := cB x c.swap.path, ha := b2n c.a.bh, hb := b2n c.b.bh }
 
 theorem sm_swap (x : Nat) (c : PC) : sm x c.swap = (sm x c).swap := rfl
+
+/-- Flow id `x` is dead for streams: it has left both scripts, no stream object carries it, no `Connect x` is
+    under way and no stream request for it is pending — so no stream object will ever carry it. -/
+def Sm.dead (s : Sm) : Prop :=
+  s.ca = 0 ∧ s.cb = 0 ∧ s.na = 0 ∧ s.nb = 0 ∧ s.cP = 0 ∧ s.cQ = 0 ∧ s.sa ≠ 1 ∧ s.sb ≠ 1
 
 /-- The part of the invariant that speaks about the path FROM the left side (`own`: the left side's
     script contains `x`). -/
 structure HalfS (own : Prop) (s : Sm) : Prop where
   sum : s.ca + s.cb ≤ 1
   ownCnt : 1 ≤ s.ca → own
-  ownSlot : s.sa = 1 → own
+  ownSlot : s.sa = 1 ∨ s.sa = 3 → own
   ownConn : 1 ≤ s.cP → own
-  fresh : 1 ≤ s.ca → s.sa = 0 ∧ s.sb = 0 ∧ s.na = 0 ∧ s.nb = 0 ∧ s.cP = 0 ∧ s.aP = 0 ∧ s.cQ = 0 ∧ s.aQ = 0
+  fresh : 1 ≤ s.ca → s.sa = 0 ∧ s.sb = 0 ∧ s.na = 0 ∧ s.nb = 0 ∧ s.cP = 0 ∧ s.aP = 0 ∧ s.cQ = 0 ∧ s.aQ = 0 ∧
+    s.bP = 0 ∧ s.bQ = 0 ∧ s.ha = 0 ∧ s.hb = 0
   noAP : s.na = 0 → s.aP = 0
   once : s.ca + s.cP ≤ 1
   connB : 1 ≤ s.cP → s.nb = 0
   objs : own → s.nb = 0 → s.na = 0
+  one : s.na ≤ 1
+  reqObj : s.sa = 1 → s.na = 0
+  wle : s.wa ≤ s.na
+  bindDead : 1 ≤ s.bP ∨ s.hb = 1 → s.dead
+  hle : s.ha ≤ 1
+  estObj : s.sa = 2 → 1 ≤ s.na
 
 structure CoreS (ownA ownB : Prop) (s : Sm) : Prop where
   l : HalfS ownA s
@@ -68,38 +91,76 @@ inductive SStepL : Sm → Sm → Prop
   /-- nothing grows; the left slot stays or is released -/
   | shrink (s s' : Sm) (h1 : s'.ca ≤ s.ca) (h2 : s'.cb = s.cb) (h3 : s'.na = s.na) (h4 : s'.nb = s.nb)
       (h5 : s'.sa = s.sa ∨ s'.sa = 0) (h6 : s'.sb = s.sb) (h7 : s'.cP ≤ s.cP) (h8 : s'.aP ≤ s.aP)
-      (h9 : s'.cQ ≤ s.cQ) (h10 : s'.aQ ≤ s.aQ) : SStepL s s'
-  /-- an `Acknowledge x` or `Push x` is queued by a side that has an object carrying `x` -/
-  | enqAP (s s' : Sm) (h0 : 0 < s.na) (h1 : s'.ca = s.ca) (h2 : s'.cb = s.cb) (h3 : s'.na = s.na) (h4 : s'.nb = s.nb)
-      (h5 : s'.sa = s.sa) (h6 : s'.sb = s.sb) (h7 : s'.cP = s.cP) (h8 : s'.aP = s.aP + 1)
-      (h9 : s'.cQ = s.cQ) (h10 : s'.aQ = s.aQ) : SStepL s s'
-  /-- `x` is drawn -/
-  | draw (s s' : Sm) (h1 : s'.ca < s.ca) (h2 : s'.cb = s.cb) (h3 : s'.na = s.na) (h4 : s'.nb = s.nb)
-      (h5 : s.sa = 0 ∧ s'.sa = 1) (h6 : s'.sb = s.sb) (h7 : s.cP ≤ s'.cP ∧ s'.cP ≤ s.cP + 1) (h8 : s'.aP = s.aP)
-      (h9 : s'.cQ = s.cQ) (h10 : s'.aQ = s.aQ) : SStepL s s'
+      (h9 : s'.cQ ≤ s.cQ) (h10 : s'.aQ ≤ s.aQ) (h11 : s'.wa ≤ s.wa) (h12 : s'.wb = s.wb) (h13 : s'.bP ≤ s.bP)
+      (h14 : s'.bQ ≤ s.bQ) (h15 : s'.ha ≤ s.ha) (h16 : s'.hb = s.hb) : SStepL s s'
+  /-- an `Acknowledge x` is queued by a side that has an object carrying `x` (`w = false`), or a `Push x` by a
+      side that has a writable one (`w = true`) -/
+  | enqAP (s s' : Sm) (w : Bool) (h0 : if w then 0 < s.wa else 0 < s.na) (h1 : s'.ca = s.ca) (h2 : s'.cb = s.cb)
+      (h3 : s'.na = s.na) (h4 : s'.nb = s.nb) (h5 : s'.sa = s.sa) (h6 : s'.sb = s.sb) (h7 : s'.cP = s.cP)
+      (h8 : s'.aP = s.aP + 1) (h9 : s'.cQ = s.cQ) (h10 : s'.aQ = s.aQ) (h11 : s'.wa = s.wa) (h12 : s'.wb = s.wb)
+      (h13 : s'.bP = s.bP) (h14 : s'.bQ = s.bQ) (h15 : s'.ha = s.ha) (h16 : s'.hb = s.hb) : SStepL s s'
+  /-- `x` is drawn for a stream (`b = false`: `Connect x` queued) or for a bind (`b = true`: `Bind x` queued) -/
+  | draw (s s' : Sm) (b : Bool) (h1 : s'.ca < s.ca) (h2 : s'.cb = s.cb) (h3 : s'.na = s.na) (h4 : s'.nb = s.nb)
+      (h5 : s.sa = 0 ∧ s'.sa = (if b then 3 else 1)) (h6 : s'.sb = s.sb)
+      (h7 : s'.cP = s.cP + (if b then 0 else 1)) (h8 : s'.aP = s.aP)
+      (h9 : s'.cQ = s.cQ) (h10 : s'.aQ = s.aQ) (h11 : s'.wa = s.wa) (h12 : s'.wb = s.wb)
+      (h13 : s'.bP = s.bP + (if b then 1 else 0)) (h14 : s'.bQ = s.bQ) (h15 : s'.ha = s.ha) (h16 : s'.hb = s.hb) :
+      SStepL s s'
   /-- a `Connect x` creates an object -/
   | connNew (s s' : Sm) (h1 : s'.ca = s.ca) (h2 : s'.cb = s.cb) (h3 : s'.na = s.na + 1) (h4 : s'.nb = s.nb)
       (h5 : s.sa = 0 ∧ s'.sa = 2) (h6 : s'.sb = s.sb) (h7 : s'.cP = s.cP) (h8 : s.aP ≤ s'.aP ∧ s'.aP ≤ s.aP + 1)
-      (h9 : s'.cQ + 1 = s.cQ) (h10 : s'.aQ = s.aQ) : SStepL s s'
+      (h9 : s'.cQ + 1 = s.cQ) (h10 : s'.aQ = s.aQ) (h11 : s'.wa = s.wa + 1) (h12 : s'.wb = s.wb)
+      (h13 : s'.bP = s.bP) (h14 : s'.bQ = s.bQ) (h15 : s'.ha = s.ha) (h16 : s'.hb = s.hb) : SStepL s s'
   /-- an `Acknowledge x` creates an object -/
   | ackNew (s s' : Sm) (h1 : s'.ca = s.ca) (h2 : s'.cb = s.cb) (h3 : s'.na = s.na + 1) (h4 : s'.nb = s.nb)
       (h5 : s.sa = 1 ∧ s'.sa = 2) (h6 : s'.sb = s.sb) (h7 : s'.cP = s.cP) (h8 : s'.aP = s.aP)
-      (h9 : s'.cQ = s.cQ) (h10 : s'.aQ + 1 = s.aQ) : SStepL s s'
+      (h9 : s'.cQ = s.cQ) (h10 : s'.aQ + 1 = s.aQ) (h11 : s'.wa = s.wa + 1) (h12 : s'.wb = s.wb)
+      (h13 : s'.bP = s.bP) (h14 : s'.bQ = s.bQ) (h15 : s'.ha = s.ha) (h16 : s'.hb = s.hb) : SStepL s s'
+  /-- a `Bind x` is processed and may become a held request -/
+  | popBind (s s' : Sm) (h1 : s'.ca = s.ca) (h2 : s'.cb = s.cb) (h3 : s'.na = s.na) (h4 : s'.nb = s.nb)
+      (h5 : s'.sa = s.sa) (h6 : s'.sb = s.sb) (h7 : s'.cP = s.cP) (h8 : s'.aP = s.aP)
+      (h9 : s'.cQ = s.cQ) (h10 : s'.aQ = s.aQ) (h11 : s'.wa = s.wa) (h12 : s'.wb = s.wb)
+      (h13 : s'.bP = s.bP) (h14 : s'.bQ + 1 = s.bQ) (h15 : s.ha ≤ s'.ha ∧ s'.ha ≤ 1) (h16 : s'.hb = s.hb) : SStepL s s'
 
 theorem CoreS.stepL {ownA ownB : Prop} (hex : ¬(ownA ∧ ownB)) {s s' : Sm} (h : CoreS ownA ownB s) (st : SStepL s s') :
     CoreS ownA ownB s' := by
-  obtain ⟨⟨l1, l2, l3, l4, l5, l6, l7, l8, l9⟩, ⟨r1, r2, r3, r4, r5, r6, r7, r8, r9⟩⟩ := h
-  simp only [Sm.swap] at r1 r2 r3 r4 r5 r6 r7 r8 r9
+  obtain ⟨⟨l1, l2, l3, l4, l5, l6, l7, l8, l9, l10, l11, l12, l13, l14, l15⟩,
+    ⟨r1, r2, r3, r4, r5, r6, r7, r8, r9, r10, r11, r12, r13, r14, r15⟩⟩ := h
+  simp only [Sm.swap, Sm.dead] at r1 r2 r3 r4 r5 r6 r7 r8 r9 r10 r11 r12 r13 r14 r15 l13
   cases st with
-  | shrink h1 h2 h3 h4 h5 h6 h7 h8 h9 h10 =>
-    refine ⟨⟨?_, ?_, ?_, ?_, ?_, ?_, ?_, ?_, ?_⟩, ⟨?_, ?_, ?_, ?_, ?_, ?_, ?_, ?_, ?_⟩⟩ <;> (try simp only [Sm.swap]) <;> grind
-  | enqAP h0 h1 h2 h3 h4 h5 h6 h7 h8 h9 h10 =>
-    refine ⟨⟨?_, ?_, ?_, ?_, ?_, ?_, ?_, ?_, ?_⟩, ⟨?_, ?_, ?_, ?_, ?_, ?_, ?_, ?_, ?_⟩⟩ <;> (try simp only [Sm.swap]) <;> grind
-  | draw h1 h2 h3 h4 h5 h6 h7 h8 h9 h10 =>
-    refine ⟨⟨?_, ?_, ?_, ?_, ?_, ?_, ?_, ?_, ?_⟩, ⟨?_, ?_, ?_, ?_, ?_, ?_, ?_, ?_, ?_⟩⟩ <;> (try simp only [Sm.swap]) <;> grind
-  | connNew h1 h2 h3 h4 h5 h6 h7 h8 h9 h10 =>
-    refine ⟨⟨?_, ?_, ?_, ?_, ?_, ?_, ?_, ?_, ?_⟩, ⟨?_, ?_, ?_, ?_, ?_, ?_, ?_, ?_, ?_⟩⟩ <;> (try simp only [Sm.swap]) <;> grind
-  | ackNew h1 h2 h3 h4 h5 h6 h7 h8 h9 h10 =>
-    refine ⟨⟨?_, ?_, ?_, ?_, ?_, ?_, ?_, ?_, ?_⟩, ⟨?_, ?_, ?_, ?_, ?_, ?_, ?_, ?_, ?_⟩⟩ <;> (try simp only [Sm.swap]) <;> grind
+  | shrink h1 h2 h3 h4 h5 h6 h7 h8 h9 h10 h11 h12 h13 h14 h15 h16 =>
+    refine ⟨⟨?_, ?_, ?_, ?_, ?_, ?_, ?_, ?_, ?_, ?_, ?_, ?_, ?_, ?_, ?_⟩, ⟨?_, ?_, ?_, ?_, ?_, ?_, ?_, ?_, ?_, ?_, ?_, ?_, ?_, ?_, ?_⟩⟩ <;>
+      (try simp only [Sm.swap, Sm.dead]) <;> grind
+  | enqAP w h0 h1 h2 h3 h4 h5 h6 h7 h8 h9 h10 h11 h12 h13 h14 h15 h16 =>
+    refine ⟨⟨?_, ?_, ?_, ?_, ?_, ?_, ?_, ?_, ?_, ?_, ?_, ?_, ?_, ?_, ?_⟩, ⟨?_, ?_, ?_, ?_, ?_, ?_, ?_, ?_, ?_, ?_, ?_, ?_, ?_, ?_, ?_⟩⟩ <;>
+      (try simp only [Sm.swap, Sm.dead]) <;> cases w <;> simp only [if_true, if_false, Bool.false_eq_true] at h0 <;> grind
+  | draw b h1 h2 h3 h4 h5 h6 h7 h8 h9 h10 h11 h12 h13 h14 h15 h16 =>
+    refine ⟨⟨?_, ?_, ?_, ?_, ?_, ?_, ?_, ?_, ?_, ?_, ?_, ?_, ?_, ?_, ?_⟩, ⟨?_, ?_, ?_, ?_, ?_, ?_, ?_, ?_, ?_, ?_, ?_, ?_, ?_, ?_, ?_⟩⟩ <;>
+      (try simp only [Sm.swap, Sm.dead]) <;> cases b <;> simp only [if_true, if_false, Bool.false_eq_true] at h5 h7 h13 <;> grind
+  | connNew h1 h2 h3 h4 h5 h6 h7 h8 h9 h10 h11 h12 h13 h14 h15 h16 =>
+    refine ⟨⟨?_, ?_, ?_, ?_, ?_, ?_, ?_, ?_, ?_, ?_, ?_, ?_, ?_, ?_, ?_⟩, ⟨?_, ?_, ?_, ?_, ?_, ?_, ?_, ?_, ?_, ?_, ?_, ?_, ?_, ?_, ?_⟩⟩ <;>
+      (try simp only [Sm.swap, Sm.dead]) <;> grind
+  | ackNew h1 h2 h3 h4 h5 h6 h7 h8 h9 h10 h11 h12 h13 h14 h15 h16 =>
+    refine ⟨⟨?_, ?_, ?_, ?_, ?_, ?_, ?_, ?_, ?_, ?_, ?_, ?_, ?_, ?_, ?_⟩, ⟨?_, ?_, ?_, ?_, ?_, ?_, ?_, ?_, ?_, ?_, ?_, ?_, ?_, ?_, ?_⟩⟩ <;>
+      (try simp only [Sm.swap, Sm.dead]) <;> grind
+  | popBind h1 h2 h3 h4 h5 h6 h7 h8 h9 h10 h11 h12 h13 h14 h15 h16 =>
+    refine ⟨⟨?_, ?_, ?_, ?_, ?_, ?_, ?_, ?_, ?_, ?_, ?_, ?_, ?_, ?_, ?_⟩, ⟨?_, ?_, ?_, ?_, ?_, ?_, ?_, ?_, ?_, ?_, ?_, ?_, ?_, ?_, ?_⟩⟩ <;>
+      (try simp only [Sm.swap, Sm.dead]) <;> grind
+
+/-- Once dead for streams, always dead. -/
+theorem Sm.dead_stepL {ownA ownB : Prop} {s s' : Sm} (h : CoreS ownA ownB s) (hd : s.dead) (st : SStepL s s') : s'.dead := by
+  obtain ⟨⟨l1, l2, l3, l4, l5, l6, l7, l8, l9, l10, l11, l12, l13, l14, l15⟩, _⟩ := h
+  simp only [Sm.dead] at hd ⊢
+  cases st with
+  | shrink h1 h2 h3 h4 h5 h6 h7 h8 h9 h10 h11 h12 h13 h14 h15 h16 => grind
+  | enqAP w h0 h1 h2 h3 h4 h5 h6 h7 h8 h9 h10 h11 h12 h13 h14 h15 h16 =>
+    cases w <;> simp only [if_true, if_false, Bool.false_eq_true] at h0 <;> grind
+  | draw b h1 h2 h3 h4 h5 h6 h7 h8 h9 h10 h11 h12 h13 h14 h15 h16 => grind
+  | connNew h1 h2 h3 h4 h5 h6 h7 h8 h9 h10 h11 h12 h13 h14 h15 h16 => grind
+  | ackNew h1 h2 h3 h4 h5 h6 h7 h8 h9 h10 h11 h12 h13 h14 h15 h16 => grind
+  | popBind h1 h2 h3 h4 h5 h6 h7 h8 h9 h10 h11 h12 h13 h14 h15 h16 => grind
+
+theorem Sm.dead_swap {s : Sm} (h : s.dead) : s.swap.dead := by
+  simp only [Sm.dead, Sm.swap] at h ⊢; grind
 
 end Penguin.PairAll
